@@ -1416,6 +1416,243 @@ pub struct F3All {
     pub dropped_fens: Vec<String>,
 }
 
+/// Group of a legal move for the single-group family: which part of the generator produces it.
+pub fn move_group(b: &Board, m: &Move) -> &'static str {
+    use owlchess::types::Piece;
+    let cap = b.get(m.dst()).is_occupied();
+    match m.kind() {
+        MoveKind::Enpassant => "ep",
+        MoveKind::PawnDouble => "pawn-double",
+        MoveKind::CastlingKingside | MoveKind::CastlingQueenside => "castle",
+        MoveKind::PromoteKnight | MoveKind::PromoteBishop | MoveKind::PromoteRook | MoveKind::PromoteQueen => {
+            if cap {
+                "promo-capture"
+            } else {
+                "promo-push"
+            }
+        }
+        MoveKind::Null => "null",
+        MoveKind::Simple => match m.src_cell().piece() {
+            Some(Piece::Pawn) => {
+                if cap {
+                    "pawn-capture"
+                } else {
+                    "pawn-push"
+                }
+            }
+            Some(Piece::King) => "king",
+            Some(Piece::Knight) => "knight",
+            Some(Piece::Bishop) => "bishop",
+            Some(Piece::Rook) => "rook",
+            Some(Piece::Queen) => "queen",
+            None => "null",
+        },
+    }
+}
+
+/// F3i: positions all of whose legal moves come from ONE generator group (only en passant, only
+/// push-promotions, only double steps, ...). Found by seeded random search over sparse positions.
+/// A generator group dropped from `has_legal_moves`, a SAN check mark or an outcome depends on them.
+pub fn f3i(rng: &mut Rng, per_group: usize, tries: usize) -> Vec<Pos> {
+    use std::collections::HashMap;
+    let mut have: HashMap<&'static str, usize> = HashMap::new();
+    let mut out = Vec::new();
+    let men: [u8; 16] = [WP, WP, WP, BP, BP, BP, WN, BN, WB, BB, WR, BR, WQ, BQ, WP, BP];
+    for _ in 0..tries {
+        let mut cells: Cells = [0; 64];
+        // kings: the side to move's king often in a corner / on an edge so that it is easily boxed in
+        let white_to_move = rng.chance(1, 2);
+        let k1 = if rng.chance(1, 2) {
+            *rng.pick(&[0usize, 7, 56, 63, 1, 6, 8, 15, 48, 55, 57, 62])
+        } else {
+            rng.below(64) as usize
+        };
+        let mut k2 = rng.below(64) as usize;
+        let mut guard = 0;
+        while (k2 == k1 || kings_adjacent(k1, k2)) && guard < 50 {
+            k2 = rng.below(64) as usize;
+            guard += 1;
+        }
+        if k2 == k1 || kings_adjacent(k1, k2) {
+            continue;
+        }
+        cells[k1] = if white_to_move { WK } else { BK };
+        cells[k2] = if white_to_move { BK } else { WK };
+        let n = 1 + rng.below(6) as usize;
+        for _ in 0..n {
+            let m = *rng.pick(&men);
+            // near the mover's king half of the time
+            let sq = if rng.chance(1, 2) {
+                let r = (k1 / 8) as i32 + rng.below(5) as i32 - 2;
+                let c = (k1 % 8) as i32 + rng.below(5) as i32 - 2;
+                if !on_board(r, c) {
+                    continue;
+                }
+                (r * 8 + c) as usize
+            } else {
+                rng.below(64) as usize
+            };
+            if cells[sq] != 0 {
+                continue;
+            }
+            if (m == WP || m == BP) && (sq / 8 == 0 || sq / 8 == 7) {
+                continue;
+            }
+            cells[sq] = m;
+        }
+        let side = if white_to_move { Color::White } else { Color::Black };
+        let eps = ep_candidates(&cells, side);
+        let ep = if !eps.is_empty() && rng.chance(1, 2) {
+            Some(*rng.pick(&eps))
+        } else {
+            None
+        };
+        let raw = cells_to_raw(&cells, side, 0, ep, 0, 1);
+        let p = match pos_of(raw, "F3i") {
+            Some(p) => p,
+            None => continue,
+        };
+        let ms = true_legal_moves(&p.board);
+        if ms.is_empty() {
+            continue;
+        }
+        let g = move_group(&p.board, &ms[0]);
+        if ms.iter().any(|m| move_group(&p.board, m) != g) {
+            continue;
+        }
+        let cnt = have.entry(g).or_insert(0);
+        if *cnt >= per_group {
+            continue;
+        }
+        *cnt += 1;
+        out.push(p);
+    }
+    // templates for the two groups random search practically never isolates
+    for t in 0..(tries / 2) {
+        let mut cells: Cells = [0; 64];
+        let want_double = t % 2 == 0;
+        if want_double {
+            // White: king on rank 4 checked along the rank by a rook, a pawn on rank 2 between them
+            let kf = rng.below(8) as usize;
+            let rf = rng.below(8) as usize;
+            if kf.abs_diff(rf) < 2 {
+                continue;
+            }
+            let (lo, hi) = if kf < rf { (kf, rf) } else { (rf, kf) };
+            let pf = lo + 1 + rng.below((hi - lo - 1) as u64) as usize;
+            cells[4 * 8 + kf] = WK;
+            cells[4 * 8 + rf] = if rng.chance(1, 2) { BR } else { BQ };
+            cells[6 * 8 + pf] = WP;
+        } else {
+            // White pawn on rank 5 next to a black pawn that has just made a double step
+            let f = rng.below(8) as usize;
+            let g = if f == 0 { 1 } else if f == 7 { 6 } else if rng.chance(1, 2) { f - 1 } else { f + 1 };
+            cells[3 * 8 + f] = WP;
+            cells[3 * 8 + g] = BP;
+            let k = rng.below(64) as usize;
+            if cells[k] != 0 {
+                continue;
+            }
+            cells[k] = WK;
+        }
+        let bk = rng.below(64) as usize;
+        if cells[bk] != 0 {
+            continue;
+        }
+        cells[bk] = BK;
+        let n = 2 + rng.below(6) as usize;
+        for _ in 0..n {
+            let m = *rng.pick(&[BN, BB, BR, BQ, BP, BP, WP, BQ]);
+            let sq = rng.below(64) as usize;
+            if cells[sq] != 0 || ((m == WP || m == BP) && (sq / 8 == 0 || sq / 8 == 7)) {
+                continue;
+            }
+            cells[sq] = m;
+        }
+        let ep = if want_double {
+            None
+        } else {
+            ep_candidates(&cells, Color::White).first().copied()
+        };
+        if !want_double && ep.is_none() {
+            continue;
+        }
+        let raw = cells_to_raw(&cells, Color::White, 0, ep, 0, 1);
+        // both colours: the position and its colour-swapped vertical mirror
+        for raw in [raw, mirror_raw_v(&raw)] {
+            let p = match pos_of(raw, "F3i") {
+                Some(p) => p,
+                None => continue,
+            };
+            let ms = true_legal_moves(&p.board);
+            if ms.is_empty() {
+                continue;
+            }
+            let g = move_group(&p.board, &ms[0]);
+            if (g != "pawn-double" && g != "ep") || ms.iter().any(|m| move_group(&p.board, m) != g) {
+                continue;
+            }
+            let cnt = have.entry(g).or_insert(0);
+            if *cnt >= per_group {
+                continue;
+            }
+            *cnt += 1;
+            out.push(p);
+        }
+    }
+    out
+}
+
+/// Predecessors of single-group positions in which the side to move is in check: a position and a
+/// checking move of it whose successor is the given position (so that the SAN check / mate mark
+/// of that move depends on exactly one generator group).
+pub fn f3i_predecessors(ps: &[Pos]) -> Vec<(Pos, Move)> {
+    let mut out = Vec::new();
+    for q in ps {
+        if !q.board.is_check() {
+            continue;
+        }
+        let qcells = raw_to_cells(q.board.raw());
+        let mover_white = q.board.side() == Color::Black;
+        for t in 0..64usize {
+            let m = qcells[t];
+            if m == 0 || is_white(m) != mover_white || kind_of(m) == 0 || m == WK || m == BK {
+                continue;
+            }
+            if m == WP || m == BP {
+                continue;
+            }
+            let mut found = false;
+            for u in 0..64usize {
+                if qcells[u] != 0 || found {
+                    continue;
+                }
+                let mut cells = qcells;
+                cells[t] = 0;
+                cells[u] = m;
+                let side = if mover_white { Color::White } else { Color::Black };
+                let raw = cells_to_raw(&cells, side, 0, None, 0, 1);
+                let p = match pos_of(raw, "F3i-pred") {
+                    Some(p) => p,
+                    None => continue,
+                };
+                for mv in true_legal_moves(&p.board) {
+                    if mv.src().index() == u && mv.dst().index() == t && mv.kind() == MoveKind::Simple {
+                        if let Some(nb) = safe_make(&p.board, mv) {
+                            if nb.raw().cells == q.board.raw().cells {
+                                out.push((p.clone(), mv));
+                                found = true;
+                            }
+                        }
+                        break;
+                    }
+                }
+            }
+        }
+    }
+    out
+}
+
 pub fn f3_all(rng: &mut Rng, full: bool) -> F3All {
     let mut pos = Vec::new();
     let mut dropped = Vec::new();
@@ -1431,6 +1668,7 @@ pub fn f3_all(rng: &mut Rng, full: bool) -> F3All {
     dropped.extend(bad);
     pos.extend(f3g(rng, full));
     pos.extend(f3h(rng, full));
+    pos.extend(f3i(rng, if full { 40 } else { 8 }, if full { 2_000_000 } else { 300_000 }));
     F3All {
         pos,
         dropped_fens: dropped,
